@@ -2,7 +2,7 @@
 # seedverify.sh <seed-name> <scratch-worktree> <checks...>
 # 1. confirms the seeded change in its scratch worktree: existing suite passes with the patch, demo fails with it and passes without
 # 2. stores it under /verif/seeded/<seed-name>/
-# 3. applies it to /repo, runs the given checks (quick; "ID:thorough" for thorough), undoes it straight afterwards
+# 3. runs the given checks (quick; "ID:thorough" for thorough) against /repo + the change as a build overlay (nothing in /repo is modified)
 set -u
 NAME=$1; WT=$2; shift 2
 . /verif/lib/env.sh
@@ -34,16 +34,37 @@ D=/verif/seeded/$NAME; mkdir -p "$D"
 cp SEED/patch.diff "$D/patch.diff"; cp -r "SEED/$DEMO" "$D/"; cp SEED/meta.json "$D/meta.agent.json"
 res=""
 cd /verif
-git -C /repo diff --quiet || { echo "/repo is dirty, refusing"; exit 2; }
-git -C /repo apply "$D/patch.diff" || { echo "patch does not apply to /repo"; exit 2; }
+# the change is presented to the checks as a build overlay (file replacements / additions taken from the seed's own
+# worktree with the patch applied), exactly like the self-test's mutants: /repo itself is never touched, so this can
+# run while other checks are using /repo
+cd "$WT" && git apply SEED/patch.diff || { echo "patch does not apply"; exit 2; }
+OV=$(mktemp -d /tmp/verif.seedov.XXXXXX)
+python3 - "$WT" "$OV" <<'PY'
+import json,subprocess,sys,os,shutil
+wt,ov=sys.argv[1:3]
+names=subprocess.run(['git','-C',wt,'diff','--name-only'],capture_output=True,text=True).stdout.split()
+names+= [n for n in subprocess.run(['git','-C',wt,'ls-files','--others','--exclude-standard'],capture_output=True,text=True).stdout.split() if not n.startswith('SEED/')]
+rep={}
+for i,n in enumerate(names):
+    src=os.path.join(wt,n)
+    if os.path.exists(src):
+        dst=os.path.join(ov,'%d_%s'%(i,os.path.basename(n)))
+        shutil.copy(src,dst); rep['/repo/'+n]=dst
+    else:
+        rep['/repo/'+n]=''
+json.dump({'Replace':rep},open(os.path.join(ov,'overlay.json'),'w'))
+print('overlay files:',' '.join(names))
+PY
+git checkout -q -- . ; git clean -fdq -e SEED
+cd /verif
 for spec in "$@"; do
   id=${spec%%:*}; tier=quick; [ "$spec" != "$id" ] && tier=${spec##*:}
-  out=$(VERIF_ROOT_OUT=$(mktemp -d /tmp/verif.seedout.XXXXXX) bin/check "$id" "$tier" 2>&1); rc=$?
+  out=$(VERIF_OVERLAY=$OV/overlay.json VERIF_ROOT_OUT=$(mktemp -d /tmp/verif.seedout.XXXXXX) bin/check "$id" "$tier" 2>&1); rc=$?
   sig=$(echo "$out" | grep -m1 'signature:' | sed 's/^ *signature: //')
   echo "  check $id $tier: exit=$rc ${sig}"
   res="$res{\"check\":\"$id\",\"tier\":\"$tier\",\"exit\":$rc,\"first_signature\":$(python3 -c 'import json,sys;print(json.dumps(sys.argv[1]))' "$sig")},"
 done
-git -C /repo checkout -q -- . ; git -C /repo clean -fdq ; git -C /repo status --short
+rm -rf "$OV"
 rm -rf /tmp/verif.seedout.*
 python3 - "$D" "[${res%,}]" <<'PY'
 import json,sys
